@@ -175,6 +175,17 @@ def k_pdu(ctx, kind, cfg, p, full=False, fault=None, decoder=None, light=False):
         else:
             ctx.table(f"faults_by_region/{kind}", region)
             ctx.table("rejection_class", f"{kind}:{'None' if ok else type(res).__name__}")
+        if cnt % 3 == 0 or fault:
+            # the corrupted PDU in a receive buffer that goes on behind it (one spare octet, the start of the next PDU, padding):
+            # still refused, still with a documented error
+            sfx = (b"\x00", raw[:7], b"\xa5" * 9)[(cnt // 3) % 3]
+            ok, res = attempt(d, q + sfx)
+            if ok and res is not None:
+                ctx.fail("fault_rejected", "corrupted_packet_accepted_when_octets_follow", f"{kind}/{name}/{region}", dict(base, fault=hex(mask), decoder=name), fault_kind=[ftype, pos, L], suffix=sfx)
+            elif not ok and not isinstance(res, doc):
+                ctx.fail("fault_rejected", "undocumented_error_when_octets_follow", f"{kind}/{name}/{exc_sig(res)}", dict(base, fault=hex(mask), decoder=name), error=repr(res), suffix=sfx)
+            else:
+                ctx.table("rejection_class_with_octets_behind", f"{kind}:{'None' if ok else type(res).__name__}")
         if len(ctx.distinct) < 300_000:
             ctx.distinct.add(hash((raw, mask)) & 0xFFFFFFFFFFFFFFFF)
     m = ctx.monitors.setdefault("fault_rejected", {"evaluations": 0, "violations": 0})
